@@ -1616,6 +1616,72 @@ func ruleExtNext(c *Ctx) {
 // the same quantity (same base, same constant offset): a clean-up that looks at the slot of i+1 and compares the
 // element's index with i never matches, the element stays counted in `len`, the free capacity reported to the
 // block requester shrinks with every block consensus adds itself, and at zero the node stops asking for blocks.
+// ringModulus: the ring has as many slots as the queue was created with (make(..., cacheSize)), and the admission
+// window of Put is measured with the same field; the position of an index is the index modulo *that* number. Folded
+// with another modulus - the package's default capacity - a queue created larger (the NeoFS fetcher queues are) maps
+// two indexes inside its window to one slot: the one that arrives second is dropped as a duplicate, the first is
+// offered to the ledger as the wrong block. Every `%` of the package has the field the ring is allocated with, or the
+// ring's length, on its right.
+func ringModulus(c *Ctx, pk *packages.Package) {
+	info := pk.TypesInfo
+	// the field the ring is allocated with: make(<slice>, <x>) assigned to / used for the field `queue`
+	sizeFields := map[types.Object]bool{}
+	for _, fd := range c.P.AllFuncDecls() {
+		if fd.Pkg != pk || fd.Decl.Body == nil {
+			continue
+		}
+		ast.Inspect(fd.Decl.Body, func(x ast.Node) bool {
+			kv, ok := x.(*ast.KeyValueExpr)
+			if !ok {
+				return true
+			}
+			// composite literal of the queue: queue: make([]Q, cacheSize), cacheSize: cacheSize
+			if id, ok := kv.Key.(*ast.Ident); ok {
+				if v, ok := info.ObjectOf(id).(*types.Var); ok && v.IsField() && v.Name() == "cacheSize" {
+					sizeFields[v] = true
+				}
+			}
+			return true
+		})
+	}
+	n := 0
+	for _, fd := range c.P.AllFuncDecls() {
+		if fd.Pkg != pk || fd.Decl.Body == nil {
+			continue
+		}
+		k := 0
+		ast.Inspect(fd.Decl.Body, func(x ast.Node) bool {
+			be, ok := x.(*ast.BinaryExpr)
+			if !ok || be.Op != token.REM {
+				return true
+			}
+			n++
+			k++
+			key := fmt.Sprintf("ring-modulus.%s#%d", shortSym(FuncKey(fd.Obj)), k)
+			good := false
+			switch r := ast.Unparen(be.Y).(type) {
+			case *ast.SelectorExpr:
+				if v, ok := info.ObjectOf(r.Sel).(*types.Var); ok && sizeFields[v] {
+					good = true
+				}
+			case *ast.CallExpr:
+				if id, ok := r.Fun.(*ast.Ident); ok && id.Name == "len" && len(r.Args) == 1 {
+					if se, ok := ast.Unparen(r.Args[0]).(*ast.SelectorExpr); ok && se.Sel.Name == "queue" {
+						good = true
+					}
+				}
+			}
+			if good {
+				c.OK(key, c.P.Pos(be.Pos()), "a position in the ring is the index modulo the number of slots the ring has")
+			} else {
+				c.Fail(key, c.P.Pos(be.Pos()), fmt.Sprintf("%s folds an index into the ring with `%% %s`, which is not the number of slots this queue was created with (its cacheSize): in a queue larger than that modulus two indexes inside the admission window share a slot - the block that arrives second is dropped as a duplicate and the one that came first is handed to the ledger in place of the other, so the node never reaches the highest contiguous block it was given", FuncKey(fd.Obj), types.ExprString(be.Y)))
+			}
+			return true
+		})
+	}
+	c.Floor("ring positions computed in package bqueue", n, 1)
+}
+
 func ruleRingSlotIndex(c *Ctx) {
 	pk := c.P.Pkg("pkg/network/bqueue")
 	if pk == nil {
@@ -1623,6 +1689,7 @@ func ruleRingSlotIndex(c *Ctx) {
 		return
 	}
 	slotCountAgreement(c, pk)
+	ringModulus(c, pk)
 	n := 0
 	for _, fd := range c.P.AllFuncDecls() {
 		if fd.Pkg != pk || fd.Decl.Body == nil {
